@@ -137,6 +137,45 @@ Section C19.
     g (interp R rO VC vaddC vscaleC Vb w e q)
     = h (interp R rO VV vadd vscale sb (fun k => w (nth k (gen_vector_split tp d dim n) 0)) e q).
   Proof. exact (gen_vector_interp_split R rO rI radd rmul rsub ropp Rth VV VC vadd vscale vaddC vscaleC inj). Qed.
+
+  (* ---------- interp_whole = sum over the components of the component interpolants of x[split_indices[n]], placed in
+     their slots — for every linear functional g of the tuple-valued field (composite_setting: the tables of the
+     composite basis and of split_bases are the regenerated Dofs tables, the basis functions are placed by the
+     regenerated _deduce_bfun) ---------- *)
+  Theorem C19_interp_whole_is_sum : forall tp ref ls (C : C01_Assembly.basis R VC) (b : nat -> C01_Assembly.basis R VV)
+      (g : VC -> R) (w : nat -> R) e q,
+    composite_setting R VV VC inj tp ref ls C b -> e < ncells tp ->
+    (forall x y, g (vaddC x y) = radd (g x) (g y)) -> (forall s x, g (vscaleC s x) = rmul s (g x)) ->
+    g (interp R rO VC vaddC vscaleC C w e q)
+    = sumn rO radd (length ls) (fun n =>
+        sumn rO radd (bNbfun (b n)) (fun ind => rmul (w (nth (nth e (element_dofs (b n) ind) 0) (gen_composite_split tp ls n) 0))
+                                                     (g (inj n (bB (b n) ind e q))))).
+  Proof. exact (gen_composite_interp_sum R rO rI radd rmul rsub ropp Rth VV VC vaddC vscaleC inj). Qed.
+
+  (* ---------- block_assembly: for coefficient vectors supported on the trial component bt and the test component a,
+     v^T A_composite u = va^T A^{a,bt} ub with A^{a,bt} the matrix of the form with all other components zeroed,
+     assembled (by the regenerated assembler of C01) on the component bases ---------- *)
+  Theorem C19_block_assembly : forall tp ref ls (C : C01_Assembly.basis R VC) (b : nat -> C01_Assembly.basis R VV)
+      (form : VC -> VC -> W -> R) (a bt : nat) (w : nat -> nat -> W) (uC vC ub va : nat -> R),
+    composite_setting R VV VC inj tp ref ls C b ->
+    (forall x y v w, form (vaddC x y) v w = radd (form x v w) (form y v w)) ->
+    (forall s x v w, form (vscaleC s x) v w = rmul s (form x v w)) ->
+    (forall u x y w, form u (vaddC x y) w = radd (form u x w) (form u y w)) ->
+    (forall s u x w, form u (vscaleC s x) w = rmul s (form u x w)) ->
+    (forall n x y, inj n (vadd x y) = vaddC (inj n x) (inj n y)) ->
+    (forall n s x, inj n (vscale s x) = vscaleC s (inj n x)) ->
+    a < length ls -> bt < length ls ->
+    wf_basis C -> wf_basis (b a) -> wf_basis (b bt) ->
+    bnelems C = ncells tp -> bnelems (b a) = ncells tp -> bnelems (b bt) = ncells tp ->
+    bnq (b a) = bnq C -> bnq (b bt) = bnq C ->
+    (forall e q, e < ncells tp -> q < bnq C -> bdx (b bt) e q = bdx C e q) ->
+    gen_supported_on R rO tp ls uC bt ub -> gen_supported_on R rO tp ls vC a va ->
+    exists cC AC cab Aab,
+      gen_bilinear_assemble R rO radd rmul VC W form w C None = Some cC /\ gen_to_dense2 R rO radd cC = Some AC /\
+      gen_bilinear_assemble R rO radd rmul VV W (fun x y w => form (inj bt x) (inj a y) w) w (b bt) (Some (b a)) = Some cab /\
+      gen_to_dense2 R rO radd cab = Some Aab /\
+      vAu R rO radd rmul vC AC uC (bN C) (bN C) = vAu R rO radd rmul va Aab ub (bN (b a)) (bN (b bt)).
+  Proof. exact (gen_block_assembly R rO rI radd rmul rsub ropp Rth VV VC W vadd vscale vaddC vscaleC inj). Qed.
 End C19.
 
 Print Assumptions C19_vector_decode.
@@ -152,6 +191,8 @@ Print Assumptions C19_fromlocal_tolocal.
 Print Assumptions C19_coo_dot.
 Print Assumptions C19_interp_split_composite.
 Print Assumptions C19_interp_split_vector.
+Print Assumptions C19_interp_whole_is_sum.
+Print Assumptions C19_block_assembly.
 
 (* ---------- non-vacuity: a rectangular (Nu = 2, Nv = 3), 2-cell, non-symmetric instance over Z ---------- *)
 Definition exV := (Z * Z)%type.
